@@ -71,10 +71,26 @@ func GangOracle() clustermc.Oracle {
 			}
 		}
 		_, _ = binds, evicts
+		// moved[job]: pods of the job that a solver evicted AND nominated again in the same cycle (a
+		// consolidating move: the pod is deleted and its replacement has to be scheduled later)
+		moved := map[string]int{}
+		evictedPods := map[string]bool{}
+		for _, d := range evicts {
+			evictedPods[d.Pod] = true
+		}
 		for _, d := range pipes {
 			if j := podJob[d.Pod]; j != nil {
 				get(j.Name, podSet[d.Pod]).piped++
+				if evictedPods[d.Pod] {
+					moved[j.Name]++
+				}
 			}
+		}
+		mv := func(job string) string {
+			if moved[job] > 0 {
+				return fmt.Sprintf(" moved-pods=%d", moved[job])
+			}
+			return ""
 		}
 		names := []string{}
 		for n := range jobs {
@@ -92,7 +108,7 @@ func GangOracle() clustermc.Oracle {
 						if c.bound == 0 {
 							kind = "sibling-podset-of-bound-gang"
 						}
-						out = append(out, engine.Violation{Property: "C03", Key: fmt.Sprintf("C03/partial-bind %s pipelined=%v", kind, c.piped > 0),
+						out = append(out, engine.Violation{Property: "C03", Key: fmt.Sprintf("C03/partial-bind %s pipelined=%v%s", kind, c.piped > 0, mv(jn)),
 							Message: fmt.Sprintf("job %s pod set %q: active before=%d, evicted=%d, bound now=%d, nominated=%d -> %d < min %d (binds were issued for the job)", jn, ps, c.before, c.evicted, c.bound, c.piped, after, min)})
 					}
 				}
@@ -108,7 +124,7 @@ func GangOracle() clustermc.Oracle {
 					}
 				}
 				if below != "" && totalAfter > 0 {
-					out = append(out, engine.Violation{Property: "C03", Key: "C03/partial-eviction action=" + action,
+					out = append(out, engine.Violation{Property: "C03", Key: "C03/partial-eviction action=" + action + mv(jn),
 						Message: fmt.Sprintf("job %s evicted by %s is left partially running (%d active pods remain): %s", jn, action, totalAfter, below)})
 				}
 			}
